@@ -155,6 +155,22 @@ def check_case(case, ctx):
                            list(range(len(out_polygons))), what + " after save/reopen")
             if spec["conv"] == "ugrid":
                 _check_mesh_topology(ctx, spec, sel, out_conv, path, what)
+        # clipping must leave the dataset it was given as it was: keeping a subset of its
+        # variables afterwards still gives every original polygon
+        if case["route"] != "saved_mask_second_dataset":
+            ctx.at("C09.select_variables_after_clip")
+            with warnings.catch_warnings():
+                warnings.simplefilter("ignore")
+                sub2 = conv.select_variables(subset)
+                sub2_conv = bind_like(spec, sub2)
+                _same_polygons(ctx, "C09.select_variables_after_clip", polygons, sub2_conv.polygons,
+                               list(range(len(polygons))), f"select_variables({subset}) after {what}")
+                pristine = specs.build(spec)
+                for name in ds.variables:
+                    ctx.check(dict(ds[name].attrs).keys() == dict(pristine[name].attrs).keys(),
+                              "C09.select_variables_after_clip",
+                              lambda: f"{what} changed the attributes of input variable {name}: "
+                              f"{sorted(ds[name].attrs)} vs {sorted(pristine[name].attrs)}")
     g = spec["geom"]
     if spec["conv"] == "ugrid":
         enc = g["enc"]
